@@ -23,10 +23,12 @@ Definition su_add (w a b : N) : N := N.min (a + b) (su_max w).
 Definition su_sub (w a b : N) : N :=
   if a =? su_max w then su_max w else (a + 2 ^ w - b) mod 2 ^ w.
 
-(** [Shl<u32>]: [self.0.checked_shl(rhs).unwrap_or(MAX)]; [checked_shl] is
-    [None] exactly for [rhs >= BITS], otherwise the bits shifted out are lost *)
+(** [Shl<u32>]: [if self.0 == 0 { 0 } else if rhs > self.0.leading_zeros() { MAX }
+    else { self.0 << rhs }]: the marker as soon as a 1 bit would be shifted out *)
 Definition su_shl (w a k : N) : N :=
-  if k <? w then (a * 2 ^ k) mod 2 ^ w else su_max w.
+  if a =? 0 then 0
+  else if w - N.size a <? k then su_max w
+  else (a * 2 ^ k) mod 2 ^ w.
 
 (** [Shr<u32>]: [if self.0 == MAX { MAX } else { self.0 >> rhs }] (the shift
     amount is taken modulo [BITS] without overflow checks) *)
